@@ -190,8 +190,8 @@ def stats_term(case, fitv, tables):
     for b in st["bands"]:
         if b.get("panic"):
             continue
-        if not all(is_finite_hex(h) for h in b["radius"]):
-            return None
+        if not all(is_finite_hex(h) for h in b["radius"]) or b["t"] is None:
+            continue        # a non-finite radius is judged by the caller (C14)
         bands.append("(%s, %s)" % (qfr(Fraction(b["t"])), vec(b["radius"])))
     cu2, floor2, _ = params_for(sc)
     k2max = "(q 1000000 1)" if sc == "f64" else "(q 50 1)"
